@@ -9,14 +9,19 @@
   What is proved here for *all* coordinates and record lengths:
     overlap / containment / distance (line and ring, single- and multi-part, incl. origin-spanning)
     connect on a linear record (exact hull, argument order, idempotence, strand rule)
-    offset of a single-part location on a ring (rotation of the same bases, length, strand)
-    extension of a single-part location on a linear record (exactly the bases within the distance)
+    connect of two single-part locations on a ring (covers, well-formed, ≤ hull, shortest arc when < half)
+    offset of a single-part location and of an origin-spanning span on a ring (rotation of the same bases)
+    extension of a single-part location on a linear and on a circular record (exactly the bases within the distance)
     the feature ordering is a strict weak order
   Carried by the exhaustive small-scope correspondence + executable set-of-bases spec only
-  (see DESIGN.md): connect on a ring (cover / well-formed / shortest arc), extension on a ring,
-  offset of multi-part locations, the textual round trip.
+  (see DESIGN.md): connect on a ring for more than two or for origin-spanning inputs (cover / well-formed /
+  shortest arc), extension of multi-part locations, offset of multi-exon gene locations.
 -/
 import ASV.Proofs.LocOrder
+import ASV.Proofs.LocString
+import ASV.Proofs.LocExtend
+import ASV.Proofs.LocConnectRing
+import ASV.Proofs.LocOffsetArea
 namespace ASV.C04
 open ASV
 
@@ -113,6 +118,22 @@ theorem connect_line_idem (ls : List Loc) (h : LineInput ls) (r : Loc) (hr : con
   rw [connect_line_is_hull _ ⟨by simp, by intro l hl; simp at hl; subst hl; simp [Loc.parts, bridgesOrigin]⟩]
   simp [minList, maxList, Loc.start, Loc.end, commonStrand, Loc.strand]
 
+/-! ### connecting on a circular record -/
+
+/-- connecting two single-part locations on a ring of length `L`: the result covers both, is a
+    well-formed span (one part, or two parts meeting at the origin), is never longer than the
+    line hull, and is the shortest covering arc whenever one shorter than half the record exists.
+    (More than two inputs / origin-spanning inputs: exhaustive small-scope correspondence with the
+    same four conditions evaluated on the implementation's output.) -/
+theorem connect_ring_two (a b : Part) (L : Int) (ha : a.OK L) (hb : b.OK L) (hL : 0 < L) :
+    ∃ r, connect [.simple a, .simple b] (some L) = .ok r ∧
+      (∀ i, (a.mem i = true ∨ b.mem i = true) → r.mem i = true) ∧
+      areaWF L L r = true ∧
+      r.len ≤ max a.hi b.hi - min a.lo b.lo ∧
+      (2 * (L - max (lineGapSigned a b) (originGap a b L)) < L →
+        r.len = L - max (lineGapSigned a b) (originGap a b L)) :=
+  connect_two_ring a b L ha hb hL
+
 /-! ### shifting by an offset (ring) -/
 
 /-- shifting a single-part location by any offset on a ring of length `L` succeeds and yields
@@ -124,6 +145,14 @@ theorem offset_rotates_simple (p : Part) (k L : Int) (hL : 0 < L) (h0 : 0 ≤ p.
       r.len = p.len ∧ r.strand = p.strand :=
   offset_simple_ring p k L hL h0 h1 h2
 
+/-- the same for an origin-spanning span `[x, L) + [0, y)` (the shape of every origin-spanning
+    area): shifting rotates exactly its bases; the result is again one arc — one part, or two parts
+    meeting at the origin -/
+theorem offset_rotates_origin_spanning (x y L k : Int) (s : Strand) (hL : 0 < L) (hy0 : 0 < y) (hyx : y ≤ x) (hxL : x < L) :
+    ∃ r, offsetLocation (areaTwo x y L s) k L = .ok r ∧
+      ∀ i, r.mem i = true ↔ (0 ≤ i ∧ i < L ∧ ∃ j, (areaTwo x y L s).mem j = true ∧ RotOf L k i j) :=
+  ⟨_, offset_area_eq x y L k s hL hy0 hyx hxL, offAreaTwo_mem x y L k s hL hy0 hyx hxL⟩
+
 /-! ### extending (linear record) -/
 
 /-- extending a single-part location on a linear record covers exactly the bases within the
@@ -132,6 +161,15 @@ theorem extend_line_exact (p : Part) (d mx : Int) (h0 : 0 ≤ p.lo) (h1 : p.lo <
     ∃ r, extendLocation (.simple p) d mx false = .ok r ∧
       ∀ i, r.mem i = true ↔ (0 ≤ i ∧ i < mx ∧ ∃ j, p.mem j = true ∧ iabs (i - j) ≤ d) :=
   ⟨_, extend_simple_line p d mx, extend_simple_line_mem p d mx h0 h1 h2 hd⟩
+
+/-- extending a single-part location on a circular record (distance at most the record length)
+    covers exactly the bases within that distance, measured the shorter way round the ring, and
+    nothing outside the record -/
+theorem extend_ring_exact (p : Part) (d L : Int) (h0 : 0 ≤ p.lo) (h1 : p.lo < p.hi) (h2 : p.hi ≤ L)
+    (hd : 0 ≤ d) (hdL : d ≤ L) :
+    ∃ r, extendLocation (.simple p) d L true = .ok r ∧
+      ∀ i, r.mem i = true ↔ (0 ≤ i ∧ i < L ∧ ∃ j, p.mem j = true ∧ ringAbs L i j ≤ d) :=
+  ⟨_, extend_simple_ring_eq p d L h0 h1 h2 hd hdL, extSimpleRing_mem p d L h0 h1 h2 hd⟩
 
 /-! ### ordering -/
 
@@ -149,6 +187,14 @@ theorem key_order_strict_weak :
       (keyLt a c = false ∧ keyLt c a = false)) :=
   ⟨keyLt_irrefl, keyLt_trans, keyLt_incomp_trans⟩
 
+/-! ### textual form -/
+
+/-- the textual form of a location (`str(location)`, as stored in qualifiers such as
+    `core_location`) reads back through `location_from_string` to the same location: simple and
+    compound, all four strand spellings, any integer coordinates (exact positions) -/
+theorem string_roundtrip (l : Loc) (hne : l.parts ≠ []) : locFromChars (locChars l) = some l :=
+  locFromChars_locChars l hne
+
 /-! ### non-vacuity -/
 example : (Loc.compound [⟨90, 100, .fwd⟩, ⟨0, 10, .fwd⟩]).OK 100 ∧ (Loc.simple ⟨20, 30, .rev⟩).OK 100 := by
   constructor <;> (refine ⟨by simp [Loc.parts], ?_⟩; intro p hp; simp [Loc.parts] at hp; rcases hp with rfl | rfl <;> simp [Part.OK]) <;> simp [Part.OK]
@@ -156,6 +202,8 @@ example : (Loc.compound [⟨90, 100, .fwd⟩, ⟨0, 10, .fwd⟩]).OK 100 ∧ (Lo
 example : getDistance (.compound [⟨90, 100, .fwd⟩, ⟨0, 10, .fwd⟩]) (.simple ⟨20, 30, .fwd⟩) 100 = 10 := by decide
 /-- D2's layout: the end lands exactly on the wrap point -/
 example : offsetLocation (.simple ⟨5, 10, .fwd⟩) 10 20 = .ok (.simple ⟨15, 20, .fwd⟩) := by rfl
+/-- the wrap case of `connect_ring_two` is reachable: 60 bases between along the line, 25 over the origin -/
+example : connect [.simple ⟨5, 20, .fwd⟩, .simple ⟨80, 90, .rev⟩] (some 100) = .ok (.compound [⟨80, 100, .fwd⟩, ⟨0, 20, .fwd⟩]) := by rfl
 example : offsetLocation (.simple ⟨5, 10, .fwd⟩) 12 20 = .ok (.compound [⟨17, 20, .fwd⟩, ⟨0, 2, .fwd⟩]) := by rfl
 
 end ASV.C04
